@@ -23,6 +23,8 @@ func checkC07(e *Env) {
 	e.R.Explanation = "Decided (structural necessary conditions of C07): (a) in SignAndAddNewSignature the call that prepends the signature is reachable only after CborBytes ok, Deterministic(block) ok, GenerateDataToBeSigned(hash, block, attributes) ok, Sign(data) ok and VerifyEd25519Signature(publicKey, that signature, that data) ok (ed25519.Verify true), with the prepended signature being that same Sign result; (b) ObtainIntegrityBlock succeeds only when fileSize - declaredLength is neither negative nor non-zero; (c) the new signature is the first element of the new stack, the old stack follows; (d) GenerateDataToBeSigned writes all three inputs with 8-byte big-endian lengths; (e) the sign-bundle pipeline tests every step's error and writes the block before copying the original from the returned offset; (f) the Web Bundle ID is lower(base32(key || suffix)) with suffix {0,1,2}. " +
 		"Not decided: that signatures verify (crypto), SHA-512 content, base32 alphabet, byte equality of the copied file, the order of the three data-to-be-signed parts (pinned by TestGenerateDataToBeSigned)."
 	e.R.RuleText = "E2 must-pass-through to a call site (dominating gates) and to success exits; must-use coverage; store/ordering rules; constant extraction"
+	// OUTFILE (shared with C20): the signed file is written to a truncated or fresh file, so nothing follows the original bytes (seed C07-g)
+	outputFiles(e)
 	// ERRUSE: no error of a data-fallible module call is lost on the way (shared rule, erruse.go)
 	moduleErrorsConsumed(e, erruseEntries, 6, "integrityblock.")
 
